@@ -43,8 +43,14 @@ K10 = {
                       ("g_N_dot_u", "Wla_N_q", "q", "la_N"), ("gamma_F_u", "Wla_F_q", "q", "la_F")],
                      ("n_dot", "n_ddot", "t1t2_dot", "Omega_F_tilde", "Psi_F_tilde")),
     "Sphere2Sphere": ([("g_N", "g_N_q", "q", None), ("g_N_dot", "g_N_dot_u", "u", None), ("gamma_F", "gamma_F_q", "q", None), ("gamma_F", "gamma_F_u", "u", None),
-                       ("g_N_dot_u", "Wla_N_q", "q", "la_N"), ("gamma_F_u", "Wla_F_q", "q", "la_F")], ()),
+                       ("g_N_dot_u", "Wla_N_q", "q", "la_N"), ("gamma_F_u", "Wla_F_q", "q", "la_F"),
+                       ("g_N_dot", "g_N_ddot", "t", None), ("gamma_F", "gamma_F_dot", "t", None)], ()),
 }
+
+
+DEP_PAIRS = [("n", "n_q1_q2"), ("t1t2", "t1t2_q1_q2"), ("g_N", "g_N_q"), ("g_N", "g_N_dot"), ("g_N_dot", "g_N_dot_q"), ("g_N_dot", "g_N_dot_u"),
+             ("g_N_dot", "g_N_ddot"), ("gamma_F", "gamma_F_q"), ("gamma_F", "gamma_F_u"), ("gamma_F", "gamma_F_dot"), ("gamma_F_dot", "gamma_F_dot_q"),
+             ("gamma_F_dot", "gamma_F_dot_u"), ("g_N_dot_u", "Wla_N_q"), ("gamma_F_u", "Wla_F_q")]
 
 
 def run(ctx):
@@ -57,6 +63,18 @@ def run(ctx):
     rep.rule("C06.R8", "relative polarity of the two spheres' terms in the normal-gap chain and in the slip chain (K9)", 14)
     rep.rule("C06.R9", "all point-protocol calls of a contact on one body name the same material point (xi, B_r_CP)", 6)
     protocol.point_argument_agreement(ctx, "C06.R9", [(ci.qual, ci.rel, ci.node) for ci in contact_classes(ctx)])
+    rep.rule("C06.R11", "memoised contact kinematics (n, t1t2 and their derivatives) are keyed by every argument the result depends on, including time", 8)
+    from . import c26
+    c26.r1_keys(ctx, c26.find_sites(ctx), rule="C06.R11", want_cls=lambda ci: ci.rel.startswith("cardillo/contacts/"))
+    rep.rule("C06.R10", "dependence monotonicity (K13): a contact derivative reads no datum its primal does not read", 20)
+    from .. import depmono
+    for ci_ in contact_classes(ctx):
+        v_ = protocol.ClassView(ctx, ci_)
+        for p_, d_ in DEP_PAIRS:
+            if not v_.bodies(d_) and not v_.stores(d_):
+                continue
+            c_, f_ = v_.method(d_)
+            depmono.check(rep, "C06.R10", v_, ci_.rel, ci_.qual, p_, d_, lineno=getattr(f_, "lineno", 0))
     rep.rule("C06.R6", "Leibniz image of the primal's factor monomials equals the derivative routine's monomials (K10)", 15)
     sm = sysmodel.SystemModel(ctx)
     sysmodel.codefinition(ctx, sm, "C06.R1", family=lambda p, m: sysmodel.is_contact(m), require_live=False)
@@ -188,6 +206,25 @@ MUTANTS += [
 MUTANTS += [
     dict(id="c06-r9-1", canary=True, what="Sphere2Plane: J_P evaluated without the body-fixed offset of the sphere centre", file=S2P,
          old="        self.J_P = lambda t, q: self.subsystem.J_P(t, q, xi=self.xi, B_r_CP=self.B_r_CP)", new="        self.J_P = lambda t, q: self.subsystem.J_P(t, q, xi=self.xi)", expect="C06.R9"),
+]
+MUTANTS += [
+    dict(id="c06-r10-orig", canary=True, what="Sphere2Sphere.t1t2_q1_q2 differentiates a tangent built from t1_ref although t1t2 builds it from t2_ref (original defect)", file=S2S,
+         edits=[(S2S, "        t2_ref = self.reference_contact_basis[:, 1]\n        t2_ref_tilde = ax2skew(t2_ref)\n        l1, l2 = norm(cross3(t2_ref, n)), norm(cross3(n, t1))",
+                 "        t1_ref = self.reference_contact_basis[:, 0]\n        t1_ref_tilde = ax2skew(t1_ref)\n        l1, l2 = norm(cross3(n, t1_ref)), norm(cross3(n, t1))"),
+                (S2S, "        t1_q1 = tmp1 @ t2_ref_tilde @ n_q1\n        t1_q2 = tmp1 @ t2_ref_tilde @ n_q2", "        t1_q1 = -tmp1 @ t1_ref_tilde @ n_q1\n        t1_q2 = -tmp1 @ t1_ref_tilde @ n_q2")],
+         expect="C06.R10"),
+    dict(id="c06-r10-2", what="Sphere2Sphere.gamma_F_u uses radius1 for the lever arm of sphere 2", file=S2S,
+         old="        r_C2P2_tilde = ax2skew(-self.radius2 * n)\n        J_C2 = self.J_C2(t, q)\n        J_R2 = self.J_R2(t, q)\n        gamma_F_u", new="        r_C2P2_tilde = ax2skew(-self.radius1 * n)\n        J_C2 = self.J_C2(t, q)\n        J_R2 = self.J_R2(t, q)\n        gamma_F_u", expect=["C06.R6", "C06.R10"], optional=True),
+]
+MUTANTS += [
+    dict(id="c06-f24-orig", canary=True, what="Sphere2Sphere.g_N_ddot without the n_dot term (original defect F24)", file=S2S,
+         old="                + self.n_dot(t, q, u) @ (self.v_C2(t, q, u) - self.v_C1(t, q, u))\n", new="", expect="C06.R5"),
+    dict(id="c06-f25-orig", what="Sphere2Sphere.gamma_F_dot without the tangent rates (original defect F25b)", file=S2S,
+         old="                t1 @ a_P1P2 + t1_dot @ v_P1P2,\n                t2 @ a_P1P2 + t2_dot @ v_P1P2,", new="                t1 @ a_P1P2,\n                t2 @ a_P1P2,", expect=["C06.R5", "C06.R6"]),
+]
+MUTANTS += [
+    dict(id="c06-r11-seed", canary=True, what="[seeded by sub-agent] Sphere2Sphere.n keyed without the time (stale normal for a partner with prescribed motion)", file=S2S,
+         old="        lambda self: self.n_cache,\n        key=lambda self, t, q: hashkey(t, *q),", new="        lambda self: self.n_cache,\n        key=lambda self, t, q: hashkey(*q),", expect="C06.R11"),
 ]
 NEUTRAL = [
     dict(id="c06-n2", canary=True, what="lever arms hoisted into locals (the seeded fault's neutral twin)", file=S2S,
